@@ -483,5 +483,11 @@ PROPS["C08"]["explanation"] += " (INTERNALCLS) the reserved-class predicates com
 PROPS["C11"]["rules"] = PROPS["C11"]["rules"] + [rules_ann.rule_fileinfo_groups]
 PROPS["C11"]["explanation"] += " (ANINFO) each of the four count groups of ANfileinfo names one annotation type throughout and stores into one out-parameter."
 
+PROPS["C12"]["rules"] = PROPS["C12"]["rules"] + [rules_dd.rule_special_variant_matched]
+PROPS["C12"]["explanation"] += " (SPECIALMATCH) every tag match of HTIfind_dd accepts the special variant of the tag, in both directions."
+
+PROPS["C12"]["rules"] = PROPS["C12"]["rules"] + [rules_dd.rule_tag_tree_key_is_base]
+PROPS["C12"]["explanation"] += " (BASETAGKEY) every look-up in the tag tree uses a key reduced with BASETAG()."
+
 NOT_APPLICABLE = {}
 
